@@ -3,8 +3,8 @@ import material, report
 from checks import make_common as mc
 
 def mats(tier):
-    if tier == 'quick': return [material.parse(x) for x in ('KPk', 'Kkp', 'KRk', 'KNk', 'KRkr', 'KPkp')]
-    t5 = [material.parse(x) for x in ('KRRkr', 'KPPkp', 'KRPkp', 'KPkrr', 'KQPkp', 'KBNkp', 'KRkpp', 'KRRkp')]
+    if tier == 'quick': return [material.parse(x) for x in ('KPk', 'Kkp', 'KRk', 'KRkr', 'KPkp', 'KQPk')]
+    t5 = [material.parse(x) for x in ('KQPkr', 'KNPkb', 'KRRkr', 'KPPkp', 'KRPkp', 'KPkrr', 'KQPkp', 'KBNkp', 'KRkpp', 'KRRkp')]
     return material.M(3) + material.M(4) + t5
 
 def check(ctx):
